@@ -49,10 +49,12 @@ fn law(ctx: &mut Ctx, layer: &str, name: &str, holds: bool, a: &UVal, b: &UVal, 
     if !holds {
         ctx.violation(
             &format!("{}:{}", layer, name),
-            &format!("a = {}, b = {}: {}", a.label, b.label, detail),
+            &format!("a = {}, b = {}: {}", if a.label == "random" { format!("{:?}", a.v) } else { a.label.to_string() }, if b.label == "random" { format!("{:?}", b.v) } else { b.label.to_string() }, detail),
             Json::obj()
                 .with("a", Json::s(a.label))
                 .with("b", Json::s(b.label))
+                .with("a_value", Json::s(format!("{:?}", a.v)))
+                .with("b_value", Json::s(format!("{:?}", b.v)))
                 .with("law", Json::s(name))
                 .with("detail", Json::s(detail.clone())),
         );
@@ -323,5 +325,22 @@ pub fn run(ctx: &mut Ctx) {
     });
     ctx.cases("build_knock", n, |ctx, _, idx| {
         build_knock(ctx, &u[idx as usize]);
+    });
+    // (iii) beyond the fixed universe: random values (one of the pair is sometimes a universe value)
+    let m = ctx.size(4_000, 2_000_000);
+    ctx.cases("random_api_pairs", m, |ctx, rng, _| {
+        let a = if rng.chance(1, 4) { rng.pick(&u).clone() } else { UVal { label: "random", v: crate::vals::random_value(rng, 0) } };
+        let b = if rng.chance(1, 4) { rng.pick(&u).clone() } else { UVal { label: "random", v: crate::vals::random_value(rng, 0) } };
+        // a numeric key cannot be built through index_or_insert as a dictionary key; skip values to_val cannot make
+        ctx.count("random_pairs_api");
+        ctx.nontrivial(hash_str(&format!("{:?}{:?}", a.v, b.v)));
+        api_pair(ctx, &a, &b);
+    });
+    let m = ctx.size(150, 60_000);
+    ctx.cases("random_program_pairs", m, |ctx, rng, _| {
+        let a = UVal { label: "random", v: crate::vals::random_value(rng, 0) };
+        let b = if rng.chance(1, 3) { rng.pick(&u).clone() } else { UVal { label: "random", v: crate::vals::random_value(rng, 0) } };
+        ctx.count("random_pairs_program");
+        program_pair(ctx, &a, &b);
     });
 }
